@@ -97,6 +97,13 @@ Theorem C15_routes_in_file_order :
     denote_routes (a ++ SSec (KRoute pats) rbody :: b) = denote_routes a ++ denote_route pats rbody ++ denote_routes b.
 Proof. exact routes_in_file_order. Qed.
 
+(* a route header with a comma-separated pattern list (blanks around the commas free) yields one route per pattern, in order *)
+Theorem C15_route_patterns :
+  forall (p : bytes) (rest : list (bytes * bytes * bytes)) (rbody : list sitem), wf_pattern p ->
+    Forall (fun t => blankb (fst (fst t)) = true /\ blankb (snd (fst t)) = true /\ wf_pattern (snd t)) rest ->
+    map rt_matches (denote_route (pats_text p rest) rbody) = p :: map snd rest.
+Proof. exact route_patterns. Qed.
+
 (* ---- value typing: sizes ---- *)
 (* <n><unit> with unit in K M G k m g denotes n * 1024^i when that fits an i64 and is a value error otherwise *)
 Theorem C15_parse_size_correct :
@@ -278,6 +285,7 @@ Print Assumptions C15_independent_of_other_keys.
 Print Assumptions C15_independent_of_other_sections.
 Print Assumptions C15_hosts_in_file_order.
 Print Assumptions C15_routes_in_file_order.
+Print Assumptions C15_route_patterns.
 Print Assumptions C15_parse_size_correct.
 Print Assumptions C15_unknown_unit_rejected.
 Print Assumptions C15_unterminated_quote_rejected.
